@@ -3,7 +3,11 @@
 Exception-surface monitor around every Enforcer.enforce call of a hostile
 workload: only the documented exceptions may leave; a single check that
 certainly cannot be evaluated must deny."""
+import ast
+import collections
+import collections.abc
 import copy
+import types
 
 from pv.core import env
 from pv.gen import expr
@@ -20,7 +24,15 @@ RULE = ('cases = acyclic rule sets (1-4 rules, rule: references to lower rules) 
         'certainly cannot be evaluated: must deny. N = rule texts that are not sentences (lone quoted token, lone operator, '
         'unbalanced parenthesis), alone and referenced from other rules. D = a referenced rule removed from the living store (del / pop / same check trees under an enforcer that lacks it): the reference denies. F = a policy file overriding a registered policy with a list-of-lists rule. T = one target mapping kept by the caller and edited '
         'between calls (key deleted / value replaced): same decision as a fresh equal mapping. Non-trivial = the rule contains a left side that is not a plain '
-        'identifier path; distinct = distinct (rules, target, creds). Stratum `overlap`: two hostile requests on one enforcer at the same time (second one runs at sampled line boundaries of the first, deterministic scheduler): nothing undocumented escapes and each is decided as alone.')
+        'identifier path; distinct = distinct (rules, target, creds). Stratum `overlap`: two hostile requests on one enforcer at the same time (second one runs at sampled line boundaries of the first, deterministic scheduler): nothing undocumented escapes and each is decided as alone. '
+        'E = left sides with an empty path segment (leading, trailing or doubled dot and combinations: `a.`, `.a`, `a..b`, `a.b.`, `..a`) that are '
+        'not Python literals, against credentials without any empty-string key in which the NON-empty segments resolve to a value whose text '
+        'equals the match (directly, through lists, literal or %(t)s match): the path cannot be resolved, so the leaf denies - plain, under '
+        '`not` (allows), combined with or/and, and through a rule: reference. M = the generated JSON-like credentials (with and without '
+        'system_scope / system / domain_id / project_id, truthy and falsy) and targets handed over in other mapping containers '
+        '(MappingProxyType, a read-only collections.abc.Mapping subclass, UserDict, OrderedDict, defaultdict, a dict subclass, ChainMap), '
+        'scope enforcement off/on, registered policies with scope_types, debug logging off/on: only the exception surface is demanded '
+        '(a decision or a documented exception; no particular decision).')
 ASSUMPTIONS = ['roles in credentials are a list of strings (the statement\'s precondition)',
                'http:/https: kinds are excluded here: their transport errors are C16\'s subject',
                '% appears only inside well-formed %(name)s placeholders']
@@ -28,7 +40,7 @@ LEVEL_TEXT = ('Seeded hostile fuzzing with an exception-surface oracle; the inpu
               'fragment-based generator plus a curated alphabet is the appropriate level (no finite enumeration exists).')
 LEVEL_NOTE = 'trusted: the list of documented exceptions taken from the statement; the curated "certainly unevaluable" list'
 PLAN = {'quick': dict(shards=4, wall=60), 'thorough': dict(shards=16, wall=400)}
-MIN = {'overlapping_evaluations': 200, 'deleted_reference_decisions': 100, 'file_override_enforce_calls': 100, 'same_target_comparisons': 500, 'evaluations': 5000, 'enforce_calls': 10000, 'hostile_leaves': 5000, 'unevaluable_leaf_rules': 500}
+MIN = {'empty_segment_path_decisions': 1000, 'container_enforce_calls': 3000, 'overlapping_evaluations': 200, 'deleted_reference_decisions': 100, 'file_override_enforce_calls': 100, 'same_target_comparisons': 500, 'evaluations': 5000, 'enforce_calls': 10000, 'hostile_leaves': 5000, 'unevaluable_leaf_rules': 500}
 ANCHORS = ['oslo_policy._checks:GenericCheck.__call__', 'oslo_policy._checks:GenericCheck._find_in_dict',
            'oslo_policy._checks:RoleCheck.__call__', 'oslo_policy.policy:Enforcer.enforce']
 REQUIRED_ANCHORS = ['oslo_policy.policy:Enforcer.enforce']
@@ -92,12 +104,173 @@ def gen_creds(rnd):
     return creds
 
 
+def has_empty_key(v):
+    """True when the JSON-like value contains a mapping with the key '' anywhere."""
+    if isinstance(v, dict):
+        return any(k == '' or has_empty_key(x) for k, x in v.items())
+    if isinstance(v, (list, tuple)):
+        return any(has_empty_key(x) for x in v)
+    return False
+
+
+def is_python_literal(text):
+    """The statement's own notion of 'a Python literal': Python's literal evaluator accepts it."""
+    try:
+        ast.literal_eval(text)
+        return True
+    except (ValueError, TypeError, SyntaxError, MemoryError, RecursionError):
+        return False
+
+
+# stratum E: names of the non-empty path segments and the values they resolve to
+SEGS = ['a', 'u', 'x', 'q', 'b', 'v', 'é', 'k_1', 'user_id', 'class', 'True', 'None', 'e1', 'project', 'roles_', 'A']
+SEG_VALUES = ['x', 'r', 1, 0, True, False, None, 1.5, 'True', '1', 'é', -1, 10 ** 30, 'a.b', 'None']
+VALS_NO_EMPTY_KEY = [v for v in VALS if not has_empty_key(v)]
+E_FORMS = ['plain', 'not', 'ref', 'not-ref', 'or-false', 'and-true', 'not-not']
+
+
+def gen_empty_segment_case(rnd):
+    """A generic leaf whose left side has at least one EMPTY path segment, and credentials (no '' key anywhere) in which
+    the non-empty segments lead to a value whose text equals the match: were the empty segment ignored, the leaf would
+    match; as the path cannot be resolved, it must deny.  None when the drawn left side happens to be a Python literal."""
+    segs = [rnd.choice(SEGS) for _ in range(rnd.choice([1, 1, 2, 2, 3]))]
+    parts = [''] * rnd.choice([0, 0, 0, 1, 2])
+    for i, s in enumerate(segs):
+        if i and rnd.random() < 0.4:
+            parts.extend([''] * rnd.choice([1, 1, 2]))
+        parts.append(s)
+    parts.extend([''] * rnd.choice([0, 0, 0, 1, 2]))
+    if '' not in parts:
+        where = rnd.randrange(3 if len(segs) > 1 else 2)
+        if where == 0:
+            parts.insert(0, '')
+        elif where == 1:
+            parts.append('')
+        else:
+            parts.insert(rnd.randrange(1, len(parts)), '')
+    lhs = '.'.join(parts)
+    value = rnd.choice(SEG_VALUES)
+    # the credentials: extras first, then the structure that the non-empty segments resolve in
+    creds = {'roles': rnd.choice([[], ['r'], ['r', 'admin', 'Ünï']])}
+    for k in ('u', 'a', 'x', 'q', 'é', 'True', 'None', '1'):
+        if rnd.random() < 0.3:
+            creds[k] = rnd.choice(VALS_NO_EMPTY_KEY)
+    inner = value
+    q = rnd.random()
+    if q < 0.15:
+        inner = [value]
+    elif q < 0.3:
+        inner = ['zz', value, None]
+    for depth, s in enumerate(reversed(segs)):
+        inner = {s: inner}
+        if depth < len(segs) - 1:
+            q = rnd.random()
+            if q < 0.15:
+                inner = [inner]
+            elif q < 0.25:
+                inner['other'] = rnd.choice(VALS_NO_EMPTY_KEY)
+    creds.update(inner)
+    target = {}
+    if rnd.random() < 0.5:
+        rhs = str(value)
+        if rnd.random() < 0.5:
+            target['t'] = rnd.choice(['x', 1, None, 'y'])
+    else:
+        rhs = '%(t)s'
+        target['t'] = value
+    if not survives_tokenizer(lhs, rhs) or is_python_literal(lhs) or has_empty_key(creds):
+        return None
+    leaf = '%s:%s' % (lhs, rhs)
+    form = rnd.choice(E_FORMS)
+    if form == 'plain':
+        rules, expect = {'p': leaf}, {'p': False}
+    elif form == 'not':
+        rules, expect = {'p': 'not ' + leaf}, {'p': True}
+    elif form == 'ref':
+        rules, expect = {'p0': leaf, 'p': 'rule:p0'}, {'p0': False, 'p': False}
+    elif form == 'not-ref':
+        rules, expect = {'p0': leaf, 'p': 'not rule:p0'}, {'p0': False, 'p': True}
+    elif form == 'or-false':
+        rules, expect = {'p': '%s or role:zz_nobody or !' % leaf}, {'p': False}
+    elif form == 'and-true':
+        rules, expect = {'p': '@ and %s' % leaf, 'p1': '(%s)' % leaf}, {'p': False, 'p1': False}
+    else:
+        rules, expect = {'p': 'not not %s' % leaf}, {'p': False}
+    return dict(kind='E', rules=rules, expect=expect, lhs=lhs, form=form, target=target, creds=creds,
+                do_raise=rnd.random() < 0.5)
+
+
+# stratum M: the same JSON-like data handed over in other mapping containers
+class ReadOnlyMapping(collections.abc.Mapping):
+    """A collections.abc.Mapping that is not a MutableMapping."""
+
+    def __init__(self, data):
+        self._data = dict(data)
+
+    def __getitem__(self, key):
+        return self._data[key]
+
+    def __iter__(self):
+        return iter(self._data)
+
+    def __len__(self):
+        return len(self._data)
+
+
+class DictSubclass(dict):
+    pass
+
+
+CONTAINERS = {
+    'dict': dict,
+    'mappingproxy': lambda d: types.MappingProxyType(dict(d)),
+    'readonly-mapping': ReadOnlyMapping,
+    'userdict': collections.UserDict,
+    'ordereddict': collections.OrderedDict,
+    'defaultdict-none': lambda d: collections.defaultdict(None, d),
+    'defaultdict-dict': lambda d: collections.defaultdict(dict, d),
+    'defaultdict-list': lambda d: collections.defaultdict(list, d),
+    'dict-subclass': DictSubclass,
+    'chainmap': lambda d: collections.ChainMap(dict(d)),
+    'chainmap-empty-front': lambda d: collections.ChainMap({}, dict(d)),
+}
+CREDS_CONTAINERS = [c for c in sorted(CONTAINERS) if c != 'dict']
+TARGET_CONTAINERS = sorted(CONTAINERS)
+SCOPE_VALUES = ['all', 'x', '', None, 0, 1, True, False, ['all'], [], {'a': 1}, {}, 1.5]
+M_RULES = {'m.sys': 'system:all or system_scope:%(t)s', 'm.proj': 'project_id:%(project_id)s and role:r',
+           'm.dom': 'not domain_id:None', 'reg.sys': 'role:r or u.v:%(t)s', 'reg.proj': 'rule:m.proj or @',
+           'reg.dom': 'not system_scope:all'}
+M_SCOPES = {'reg.sys': ['system'], 'reg.proj': ['project'], 'reg.dom': ['domain', 'project']}
+
+
+def gen_container_case(rnd):
+    while True:
+        base = gen_case(rnd)
+        if base['kind'] in ('R', 'L', 'N'):
+            break
+    creds = base['creds']
+    for k in ('system_scope', 'system', 'domain_id', 'project_id'):
+        if rnd.random() < 0.5:
+            creds[k] = rnd.choice(SCOPE_VALUES)
+    target = base['target']
+    if rnd.random() < 0.3:
+        target['project_id'] = rnd.choice(['x', 1, None])
+    return dict(kind='M', rules=base['rules'], target=target, creds=creds, creds_container=rnd.choice(CREDS_CONTAINERS),
+                target_container=rnd.choice(TARGET_CONTAINERS), enforce_scope=rnd.random() < 0.5, debug=rnd.random() < 0.15)
+
+
 def gen_case(rnd):
     creds = gen_creds(rnd)
     target = {}
     for k in ('t', 't2', 'a.b', 'roles'):
         if rnd.random() < 0.6:
             target[k] = rnd.choice([None, True, 1, 1.5, 'x', "['x']", '', [], {'a': 1}, 'r', 'R', 10 ** 30])
+    if rnd.random() < 0.05:
+        case = gen_empty_segment_case(rnd)
+        if case is not None:
+            return case
+    if rnd.random() < 0.02:
+        return gen_container_case(rnd)
     if rnd.random() < 0.01:
         return dict(kind='D', how=rnd.choice(['del', 'pop', 'shared-trees']), rules={}, target={}, creds={}, do_raise=False)
     if rnd.random() < 0.01:
@@ -253,8 +426,54 @@ def check_file_override_of_registered(ctx, real, case):
         tree.cleanup()
 
 
+def check_containers(ctx, real, case):
+    """The JSON-like credentials and the target arrive in other mapping containers (read-only views, UserDict, OrderedDict,
+    defaultdict, a dict subclass, ChainMap): whatever enforcement makes of them - a decision, InvalidContextObject for a
+    container it does not take, InvalidScope - nothing but the documented exceptions may leave.  No decision is demanded."""
+    import contextlib
+    policy, _ = real
+    enf = policy.Enforcer(env.fresh_conf(enforce_scope=bool(case['enforce_scope'])), use_conf=False)
+    for name in sorted(M_SCOPES):
+        enf.register_default(policy.RuleDefault(name, M_RULES[name], scope_types=M_SCOPES[name]))
+    rules = dict(case['rules'])
+    rules.update(M_RULES)
+    ctx.case(['containers', case['rules'], case['target'], case['creds'], case['creds_container'], case['target_container'],
+              case['enforce_scope']], nontrivial=True, stratum='M')
+    try:
+        enf.set_rules(policy.Rules.from_dict(rules))
+    except Exception as e:
+        ctx.violation('load-raises', case, {'rules': rules, 'observed': type(e).__name__ + ': ' + str(e)[:100]})
+        return
+    make_creds, make_target = CONTAINERS[case['creds_container']], CONTAINERS[case['target_container']]
+    names = sorted(M_RULES) + sorted(case['rules'])[:2] + ['m.not-there']
+    with (env.debug_logging() if case.get('debug') else contextlib.nullcontext()):
+        for name in names:
+            for do_raise in (False, True):
+                creds = make_creds(copy.deepcopy(case['creds']))
+                target = make_target(copy.deepcopy(case['target']))
+                try:
+                    got = enf.enforce(name, target, creds, do_raise=do_raise)
+                    exc = None
+                except Exception as e:
+                    got, exc = None, e
+                ctx.count('container_enforce_calls')
+                ctx.count('container_enforce_calls.' + case['creds_container'])
+                if exc is not None and type(exc).__name__ not in DOCUMENTED:
+                    ctx.violation('undocumented-exception-' + type(exc).__name__, case,
+                                  {'rules': rules, 'enforced': name, 'do_raise': do_raise, 'creds': case['creds'],
+                                   'creds_container': case['creds_container'], 'target': case['target'],
+                                   'target_container': case['target_container'], 'enforce_scope': case['enforce_scope'],
+                                   'observed': '%s: %s' % (type(exc).__name__, str(exc)[:160])})
+                    return
+                # which of the permitted outcomes a container gets is left open by the statement
+                ctx.observe('container_outcomes', '%s: %s' % (case['creds_container'],
+                                                             type(exc).__name__ if exc else 'decision'))
+
+
 def check_case(ctx, real, case):
     policy, enf = real
+    if case['kind'] == 'M':
+        return check_containers(ctx, real, case)
     if case['kind'] == 'T':
         return check_same_target_object(ctx, real, case)
     if case['kind'] == 'D':
@@ -295,6 +514,21 @@ def check_case(ctx, real, case):
                     ctx.violation('unevaluable-check-allows', case, {'rules': case['rules'], 'creds': case['creds'],
                                                                     'target': case['target'], 'observed': repr(got)})
                     return
+            if case['kind'] == 'E':
+                # the left side has an empty path segment, is not a Python literal, and no mapping in the credentials has
+                # the key '': the path cannot be resolved, the leaf denies (and the rule decides accordingly)
+                if has_empty_key(case['creds']) or is_python_literal(case['lhs']):
+                    ctx.unconstrained('empty-segment-case-outside-certainty')
+                    continue
+                ctx.count('empty_segment_path_decisions')
+                allowed = exc is None and bool(got)
+                if allowed != bool(case['expect'][name]):
+                    ctx.violation('unevaluable-check-allows', case,
+                                  {'rules': case['rules'], 'enforced': name, 'left_side': case['lhs'], 'creds': case['creds'],
+                                   'target': case['target'], 'do_raise': do_raise, 'expected': 'allow' if case['expect'][name] else 'deny',
+                                   'observed': type(exc).__name__ if exc else repr(got),
+                                   'why': 'a path with an empty segment cannot be resolved in credentials without an empty-string key'})
+                    return
 
 
 OVERLAPS = {'quick': 10, 'thorough': 200}
@@ -329,6 +563,7 @@ def check_overlap(ctx, real, case):
 
 
 def run(ctx):
+    ctx.reserve(0.8)          # the strata that come last (overlapping operations) keep a fifth of the wall budget
     from oslo_policy import policy
     enf = policy.Enforcer(env.fresh_conf(), use_conf=False)
     n = N[ctx.tier] // ctx.nshards + 1
@@ -340,6 +575,7 @@ def run(ctx):
         if i % 5000 == 0:
             ctx.sample({'rules': case['rules'], 'target': case['target'], 'creds': case['creds']}, case['kind'])
     ctx.stratum('random', exhaustive=False)
+    ctx.release()
     # two overlapping requests, last (the line-level scheduler slows everything that runs after it is installed)
     from pv.mon import sched
     ctx.stratum('overlap', exhaustive=False)
@@ -351,7 +587,7 @@ def run(ctx):
             subs = []
             while len(subs) < 2:
                 c = gen_case(r)
-                if c['kind'] not in ('T', 'D', 'F'):
+                if c['kind'] not in ('T', 'D', 'F', 'M'):
                     subs.append(c)
             check_overlap(ctx, (policy, enf), dict(kind='overlap', a=subs[0], b=subs[1], rseed='%s.%d.%d' % (ctx.tier, ctx.shard, i)))
     finally:
